@@ -271,21 +271,22 @@ call_with_inference_limit(G, L, R, Bb, B) :-
        '$fail'
     ).
 call_with_inference_limit(_, _, R, Bb, B) :-
-    (  '$inference_limit_exceeded' ->
-       R = inference_limit_exceeded
-    ;  true
-    ),
     '$get_current_block'(NBb),
     '$remove_inference_counter'(NBb, _),
     '$reset_block'(Bb),
-    '$remove_call_policy_check'(B),
-    (  '$get_ball'(_),
+    (  '$inference_limit_exceeded' ->
+       % the limit of this call was exceeded ('$inference_limit_exceeded' clears the flag,
+       % so that enclosing limits keep counting): the counter is already removed.
+       '$remove_call_policy_check'(B),
+       R = inference_limit_exceeded
+    ;  '$remove_call_policy_check'(B),
+       % a ball passes through; plain failure of the goal fails here ('$get_ball'/1 fails).
+       '$get_ball'(_),
        '$push_ball_stack',
        '$get_cp'(Cp),
        '$set_cp_by_default'(Cp),
        '$pop_from_ball_stack',
        '$unwind_stack'
-    ;  nonvar(R)
     ).
 
 %% partial_string(String, Ls0, Ls)
